@@ -12,8 +12,48 @@ P = 2**255 - 19
 L = 2**252 + 27742317777372353535851937790883648493
 
 
+import fcntl, time as _time
+
+
+class _ReplayLock:
+    """serialises the shared replay work/target directories between concurrent checks (different properties, seed evaluation)"""
+    def __enter__(self):
+        os.makedirs(os.path.join(VERIF, ".work"), exist_ok=True)
+        self.f = open(os.path.join(VERIF, ".work", "replay.lock"), "w")
+        fcntl.flock(self.f, fcntl.LOCK_EX)
+        return self
+
+    def __exit__(self, *a):
+        fcntl.flock(self.f, fcntl.LOCK_UN)
+        self.f.close()
+
+
+def _private_copy(binary, kind):
+    """the freshly built binary is copied out under the lock, so that a later build for another tree cannot replace it while it runs"""
+    bd = os.path.join(VERIF, ".work", "replay-bin")
+    os.makedirs(bd, exist_ok=True)
+    now = _time.time()
+    for fn in os.listdir(bd):
+        fp = os.path.join(bd, fn)
+        try:
+            if now - os.path.getmtime(fp) > 6 * 3600:
+                os.remove(fp)
+        except OSError:
+            pass
+    dst = os.path.join(bd, "%s-%d-%d" % (kind, os.getpid(), int(now * 1000)))
+    shutil.copy2(binary, dst)
+    return dst
+
+
+
 def _build(kind, repo):
     """kind: 'k64' | 'k32'. returns path of the binary or None"""
+    with _ReplayLock():
+        b = _build_locked(kind, repo)
+        return _private_copy(b, kind) if b else None
+
+
+def _build_locked(kind, repo):
     src = os.path.join(VERIF, "replay", kind)
     wd = os.path.join(VERIF, ".work", "replay-" + kind)
     if os.path.exists(wd):
@@ -264,6 +304,12 @@ if __name__ == "__main__":
 # extraction is undecided. Inputs: corner sets per family (non-canonical encodings, torsion / exceptional points, u = -1,
 # scalars around l, 2^252, 2^255) plus VERIF_SEED-seeded random ones; judged by vlib/oracle.py.
 def _build_papi(repo):
+    with _ReplayLock():
+        b = _build_papi_locked(repo)
+        return _private_copy(b, "papi") if b else None
+
+
+def _build_papi_locked(repo):
     src = os.path.join(VERIF, "replay", "papi")
     wd = os.path.join(VERIF, ".work", "replay-papi" + ("" if repo.rstrip("/") == "/repo" else "-alt"))
     if os.path.exists(wd):
